@@ -213,9 +213,11 @@ def build_numprobe(build, sc):
         build.extra_mod.insert(0, mod)
 
 
-def run_driver(build, sc, cases, label, chunk=1500, timeout=300):
+def run_driver(build, sc, cases, label, chunk=1500, timeout=None):
     """Run all cases on the implementation; returns ({id: output object}, fixbits).  A case on which the
-    interpreter dies (signal, hang) gets {"crash": rc}; the rest of its chunk is run in a fresh process."""
+    interpreter dies (signal) or hangs (timeout; a chunk normally takes about a second) gets {"crash": rc}; the
+    rest of its chunk is run in a fresh process, at most a few times (then the rest stays unanswered)."""
+    timeout = timeout or int(os.environ.get("VERIF_DRIVER_TIMEOUT", "40"))
     chunks = list(vlib.chunks(cases, chunk))
     fixbits = []
 
@@ -223,8 +225,8 @@ def run_driver(build, sc, cases, label, chunk=1500, timeout=300):
         i, cs = ic
         res = {}
         todo = list(cs)
-        rnd = 0
-        while todo and rnd < 40:
+        rnd = hangs = 0
+        while todo and rnd < 6 and hangs < 2:
             path = sc.file("%s_in_%d_%d.scm" % (label, i, rnd))
             rnd += 1
             with open(path, "w") as f:
@@ -237,6 +239,7 @@ def run_driver(build, sc, cases, label, chunk=1500, timeout=300):
                 import subprocess
                 out = (getattr(ex, "stdout", None) or b"").decode(errors="replace")
                 rc = -9
+                hangs += 1
             bye = False
             for line in out.splitlines():
                 try:
@@ -409,12 +412,54 @@ def process(chk, sc, build, module, cfgmaker, cases, label, batch=60000, timeout
         for i in rej:
             keep_outs[i] = outs.get(i)
             keep_events[i] = events[i]
-        for c in part[:: max(1, len(part) // 8)]:
+        for c in part[:: max(1, len(part) // 40)]:
             keep_outs.setdefault(c.id, outs.get(c.id))
+            if c.id not in rej:
+                keep_events[c.id] = events[c.id]
         for f in os.listdir(sc.path):                       # traces and driver inputs of this batch are no longer needed
             if f.startswith("%s_b%d_" % (label, nb)):
                 os.remove(os.path.join(sc.path, f))
     return rejected, keep_outs, keep_events, fixbits, cfg
+
+
+def binding_selftest(chk, sc, module, cfg, events, rejected, label):
+    """Soundness rule 5: one recorded field of each of a sample of *accepted* events is corrupted; TLC must reject every one."""
+    import copy
+    bad = []
+    for cid in sorted(events):
+        if cid in rejected or events[cid]["err"] != 0:
+            continue
+        ev = copy.deepcopy(events[cid])
+        if ev["r"]:
+            mag = ev["r"][-1]["v"][0][1]
+            if mag:
+                mag[0] ^= 1
+            else:
+                ev["r"][-1]["v"][0] = [0, [1]]
+            what = "result digit"
+        elif ev["f"]:
+            ev["f"][-1] = (ev["f"][-1] + 1) % 2 if ev["f"][-1] in (0, 1) and ev["op"] not in ("inexact",) else (ev["f"][-1] ^ 1)
+            what = "flag / word"
+        elif ev["cs"]:
+            ev["cs"][-1] = 49 if ev["cs"][-1] != 49 else 48
+            what = "character"
+        else:
+            continue
+        ev["id"] = len(bad) + 1
+        bad.append(ev)
+        if len(bad) >= 60:
+            break
+    if len(bad) < 10:
+        raise Broken("%s: binding self-test has too few events (%d)" % (label, len(bad)))
+    path = sc.file("%s_selftest.ndjson" % label)
+    vlib.write_ndjson(path, bad)
+    r = vlib.run_tlc(module, cfg, sc.path, env={"TRACE": path}, workers=1, timeout=600, heap="2g")
+    got = sorted(int(x) for x in _REJ.findall(r.out))
+    if r.ok or got != list(range(1, len(bad) + 1)):
+        miss = sorted(set(range(1, len(bad) + 1)) - set(got))
+        raise Broken("%s: binding self-test: corrupted events accepted by the trace spec: %s %s" % (
+            label, [(bad[i - 1]["op"]) for i in miss][:10], (r.error or "")[:300]))
+    chk.cov["binding_selftest_corrupted_events_rejected"] = len(bad)
 
 
 def write_cfg(sc, name, spec_consts):
